@@ -258,3 +258,15 @@ def gen_shared_delays(rng, vars_, ops, **cfg):
             return ['ref', 'p1']
         return sg.with_children(x, [cut(c) for c in sg.children(x)])
     return ast, [['p1', shared]], cut(ast)
+
+
+def structify(ast, structs):
+    """the same formula with the struct-typed variables read through their field: a -> a.value (text rendering only)"""
+    if not structs:
+        return ast
+
+    def go(n):
+        if n[0] == 'var' and n[1] in structs:
+            return ['var', n[1] + '.value']
+        return sg.with_children(n, [go(c) for c in sg.children(n)])
+    return go(ast)
